@@ -90,23 +90,29 @@ class RefClient:
                 pass
 
 
-_CLIENT = None
+_CLIENTS = {}
+N_SEEDS = 4
 
 
-def client() -> RefClient:
-    """One reference server per process tree root that asks for it (created before forking run children)."""
-    global _CLIENT
-    if _CLIENT is not None and os.getpid() != _CLIENT.owner:
-        return _CLIENT  # inherited through fork: only the creating process may poll it
-    if _CLIENT is None or _CLIENT.proc.poll() is not None:
-        # deterministic given this process tree's own hash seed, so a replay under the same PYTHONHASHSEED meets the
-        # same pair of string-hash seeds
-        own = os.environ.get("PYTHONHASHSEED", "random")
-        hs = (int(own) * 7919 + 1) % 4294967295 if own.isdigit() else 1
-        if str(hs) == own:
-            hs += 1
-        _CLIENT = RefClient(hs)
-    return _CLIENT
+def ref_hashseed(k: int) -> int:
+    """k-th reference hash seed: deterministic given this process tree's own PYTHONHASHSEED, so a replay under the
+    same value meets the same seeds."""
+    own = os.environ.get("PYTHONHASHSEED", "random")
+    hs = (int(own) * 7919 + 1 + 104729 * k) % 4294967295 if own.isdigit() else 1 + k
+    if str(hs) == own:
+        hs += 1
+    return hs
+
+
+def client(k: int = 0) -> RefClient:
+    """Reference server number k of this process (created before forking run children, lazily)."""
+    k %= N_SEEDS
+    c = _CLIENTS.get(k)
+    if c is not None and os.getpid() != c.owner:
+        return c  # inherited through fork: only the creating process may poll it
+    if c is None or c.proc.poll() is not None:
+        c = _CLIENTS[k] = RefClient(ref_hashseed(k))
+    return c
 
 
 if __name__ == "__main__":
